@@ -474,11 +474,21 @@ func genC05(r *Rng, e *Emitter, n int) {
 				t = &gtree{kind: "gc", layout: geom.NoLayout, members: []*gtree{t}}
 			}
 		}
+		shared := false
+		if t.kind == "gc" && r.chance(1, 3) {
+			t.repeatMembers(r) // the same geometry object in several places of one collection
+			shared = true
+		}
 		if r.chance(1, 2) {
 			in := t.sx()
 			e.pending("C05.enc", in)
 			var text string
 			usePersist := r.chance(1, 2)
+			mk := t.build
+			if shared {
+				mk = func() geom.T { return t.buildShared(map[string]geom.T{}) }
+				e.tally("enc/shared-members")
+			}
 			if r.chance(1, 10) {
 				// an Encode that fails part-way on the long-lived encoder (a collection whose later member
 				// cannot be written): the next Encode on the same Encoder must not be affected
@@ -489,9 +499,9 @@ func genC05(r *Rng, e *Emitter, n int) {
 				var s string
 				var err error
 				if usePersist {
-					s, err = c05Encoder.Encode(t.build()) // one Encoder value reused for the whole run
+					s, err = c05Encoder.Encode(mk()) // one Encoder value reused for the whole run
 				} else {
-					s, err = wkt.Marshal(t.build())
+					s, err = wkt.Marshal(mk())
 				}
 				if err != nil {
 					return sxErr(err)
